@@ -274,6 +274,124 @@ func coqList(items []string) string {
 	return "[" + strings.Join(q, "; ") + "]"
 }
 
+// reservationOps lists, for every function of core/worker.go, the statements that mention the field
+// deletedUtxos (the per-block set the worker uses to arbitrate between pool transactions spending
+// the same outpoint), in source order, classified:
+//   make           deletedUtxos: make(...) in a composite literal
+//   lookup-reject  `if _, ok := x.deletedUtxos[h]; ok { return <error> }` (or the assignment form followed by nothing else)
+//   lookup         any other read of an element
+//   insert         x.deletedUtxos[h] = ...
+//   delete         delete(x.deletedUtxos, ...)
+//   reset          x.deletedUtxos = ...
+//   other          anything else (passed on, ranged over, copied, len, ...)
+func reservationOps(file string) [][2]string {
+	f, err := parser.ParseFile(fset, file, nil, 0)
+	if err != nil {
+		fmt.Fprintln(os.Stderr, err)
+		os.Exit(1)
+	}
+	const field = "deletedUtxos"
+	isField := func(e ast.Expr) bool {
+		se, ok := e.(*ast.SelectorExpr)
+		return ok && se.Sel.Name == field
+	}
+	type op struct {
+		pos  token.Pos
+		fn   string
+		kind string
+	}
+	var ops []op
+	for _, d := range f.Decls {
+		fd, ok := d.(*ast.FuncDecl)
+		if !ok || fd.Body == nil {
+			continue
+		}
+		used := map[ast.Node]bool{}
+		add := func(n ast.Node, sel ast.Expr, kind string) {
+			used[sel] = true
+			ops = append(ops, op{n.Pos(), fd.Name.Name, kind})
+		}
+		hasErrReturn := func(b *ast.BlockStmt) bool {
+			for _, st := range b.List {
+				if rs, ok := st.(*ast.ReturnStmt); ok {
+					for _, r := range rs.Results {
+						t := src(r)
+						if t == "err" || strings.Contains(t, "Errorf") || strings.Contains(t, "errors.New") {
+							return true
+						}
+					}
+				}
+			}
+			return false
+		}
+		lookupIn := func(st ast.Stmt) (ast.Expr, bool) { // `_, ok := x.deletedUtxos[h]`
+			as, ok := st.(*ast.AssignStmt)
+			if !ok || len(as.Rhs) != 1 {
+				return nil, false
+			}
+			ie, ok := as.Rhs[0].(*ast.IndexExpr)
+			if !ok || !isField(ie.X) {
+				return nil, false
+			}
+			return ie.X, true
+		}
+		ast.Inspect(fd.Body, func(n ast.Node) bool {
+			switch s := n.(type) {
+			case *ast.IfStmt:
+				if s.Init != nil {
+					if sel, ok := lookupIn(s.Init); ok && !used[sel] {
+						if hasErrReturn(s.Body) && s.Else == nil {
+							add(s, sel, "lookup-reject")
+						} else {
+							add(s, sel, "lookup")
+						}
+					}
+				}
+			case *ast.AssignStmt:
+				for _, l := range s.Lhs {
+					if ie, ok := l.(*ast.IndexExpr); ok && isField(ie.X) && !used[ie.X] {
+						add(s, ie.X, "insert")
+					}
+					if isField(l) && !used[l] {
+						add(s, l, "reset")
+					}
+				}
+				if sel, ok := lookupIn(s); ok && !used[sel] {
+					add(s, sel, "lookup")
+				}
+			case *ast.KeyValueExpr:
+				if id, ok := s.Key.(*ast.Ident); ok && id.Name == field {
+					kind := "other"
+					if ce, ok := s.Value.(*ast.CallExpr); ok && src(ce.Fun) == "make" {
+						kind = "make"
+					}
+					ops = append(ops, op{s.Pos(), fd.Name.Name, kind})
+				}
+			case *ast.CallExpr:
+				if src(s.Fun) == "delete" && len(s.Args) > 0 && isField(s.Args[0]) && !used[s.Args[0]] {
+					add(s, s.Args[0], "delete")
+				}
+			case *ast.SelectorExpr:
+				if s.Sel.Name == field && !used[s] {
+					add(s, s, "other")
+				}
+			}
+			return true
+		})
+	}
+	// source order
+	for i := 1; i < len(ops); i++ {
+		for j := i; j > 0 && ops[j].pos < ops[j-1].pos; j-- {
+			ops[j], ops[j-1] = ops[j-1], ops[j]
+		}
+	}
+	var out [][2]string
+	for _, o := range ops {
+		out = append(out, [2]string{o.fn, o.kind})
+	}
+	return out
+}
+
 func main() {
 	repo := flag.String("repo", "/repo", "repository root")
 	out := flag.String("out", "", "output .v file")
@@ -404,6 +522,15 @@ func main() {
 	sb.WriteString("(* database writes on the validation path that do not go through the block batch: (function, call) *)\n")
 	sb.WriteString("Definition direct_writes : list (string * string) := [")
 	for i, d := range direct {
+		if i > 0 {
+			sb.WriteString("; ")
+		}
+		fmt.Fprintf(&sb, "(%s, %s)", coqStr(d[0]), coqStr(d[1]))
+	}
+	sb.WriteString("].\n\n")
+	sb.WriteString("(* core/worker.go: every statement that mentions the per-block set deletedUtxos (the worker's arbitration\n   between pool transactions spending the same outpoint): (function, operation), in source order *)\n")
+	sb.WriteString("Definition worker_reservation_ops : list (string * string) := [")
+	for i, d := range reservationOps(filepath.Join(core, "worker.go")) {
 		if i > 0 {
 			sb.WriteString("; ")
 		}
